@@ -3,7 +3,7 @@ import OpusModel.CeltCallees2
   OpusProofs.CeltCallees2 — the index models of `pitch_search` (with find_best_pitch, celt_pitch_xcorr_c, xcorr_kernel_c,
   celt_inner_prod_c) and `denormalise_bands` stay inside the extent contracts the CELT index bridge assumes for them
   (`Opus.CeltIdx.Call.accs`), inside the mode tables and inside their local arrays, for ALL argument values within the
-  routines' preconditions.  (The MDCT / FFT part: `OpusProofs.CeltCallees2Fft`, `OpusProofs.CeltCallees2Mdct`.)
+  routines' preconditions.  (The MDCT / FFT part: `OpusProofs.CeltCallees2Fft`, `OpusProofs.CeltCallees2Bfly`, `OpusProofs.CeltCallees2Mdct`.)
 -/
 namespace Opus.CeltCallees2
 open Opus.Gen.CeltFft
